@@ -140,7 +140,9 @@ class DumperBase(DataStreamProcessor):
                             self.validator(resource)
                         )
             )
-            ret = self.failure_recorder(self.row_counter(resource, ret), failures)
+            if self.is_dumped(resource):
+                ret = self.row_counter(resource, ret)
+            ret = self.failure_recorder(ret, failures)
             yield ret
             # rows a later step did not ask for are part of the dump all the same
             collections.deque(ret, maxlen=0)
@@ -160,6 +162,10 @@ class DumperBase(DataStreamProcessor):
 
         self.handle_datapackage()
         self.finalize()
+
+    def is_dumped(self, resource):
+        # resources a dumper passes on without writing them do not count towards its totals
+        return True
 
     def handle_datapackage(self):
         self.datapackage.commit()
